@@ -18,6 +18,7 @@ Monitors (all observe the return value (x, P) of EKF/UKF/PF.__call__):
                       particle model: closed form on linear systems, trapezoidal quadrature on
                       nonlinear systems with 1-2 states.
 """
+import copy
 import hashlib
 
 import numpy as np
@@ -507,6 +508,17 @@ def run_linear(ck, rng, c, steps, which, k=None, tv_t0=None):
     else:
         flt = cls(model, Q=c["_Qt"], R=c["_Rt"]) if ctor else cls(model)
         ck.mark(f"run/{which}/QR:{'constructor' if ctor else 'per-call'}")
+    if qr_mode in (1, 2) and rng.random() < 0.5:
+        # object lifecycle: the configured covariances travel with a checkpoint / a deep copy of the filter
+        life = ["state_dict", "deepcopy"][int(rng.integers(2))]
+        if life == "deepcopy":
+            flt = copy.deepcopy(flt)
+        else:
+            n_, p_ = c["Q"].shape[-1], c["R"].shape[-1]
+            fresh = cls(LinNLS(s), Q=T(np.eye(n_) * 7.0), R=T(np.eye(p_) * 7.0))        # placeholder covariances
+            fresh.load_state_dict(flt.state_dict())
+            flt = fresh
+        ck.mark(f"run/QR-through-{life}")
     Qtrue, Rtrue = c["Q"], c["R"]
     entry = "EKF.forward" if which == "ekf" else "UKF.forward"
     kv = None if which == "ekf" else (3 - n if k is None else k)
@@ -1010,6 +1022,7 @@ def run(ck):
                    f"run/{who}/len>=50", f"run/{who}/A:unstable", f"run/{who}/reltol<=1e-9",
                    f"run_par/{who}/judged-at-step-50", f"run/{who}/QR:constructor", f"run/{who}/QR:per-call", f"run/{who}/QR:constructor+override", f"run/{who}/default-step-after-override",
                    *[f"{who}/{q}scale/{s}" for q in "PQR" for s in ("lo", "mid", "hi")])
+    ck.require("run/QR-through-state_dict", "run/QR-through-deepcopy")
     ck.require("ukf/k/None", "ukf/k/0", "ukf/k/neg", "ukf/k/neg-near--n", "ukf/k/pos", "ukf/k/pos-large",
                "ukf/centre-weight<0", "ukf/centre-weight>=0", "ukf_nl/valid",
                "ekf_nl/C(prior)!=C(pred)", "ekf_nl/reltol<=1e-9", *[f"ekf_nl/n={d}" for d in range(1, 7)],
